@@ -48,8 +48,10 @@ claim("C02",
       "Bounded model checking of the constant folder's real scalar evaluators (eval_int64, eval_bool, eval_binary): for all i64 "
       "operands, +,- are exact or not folded (never wrapped), comparisons are the integer order, / and % never panic (i64::MIN / -1 "
       "included) and are not folded on a zero divisor; a NULL operand or operands of different kinds are never folded to a value; "
-      "booleans fold by two-valued AND/OR/=/<>. Partial: the statement's row-level 3VL (NULL OR TRUE keeps the row) is evaluated by "
-      "Arrow kernels and fold_expr's AND/OR rewrites walk boxed Expr trees -- both outside CBMC's reach (DESIGN §1), so they are NOT decided.",
+      "booleans fold by two-valued AND/OR/=/<>; and of the real recursive fold_expr on AND/OR over {TRUE, FALSE, NULL} literals (all 18 "
+      "expressions) and over a column and a literal (12 expressions): every literal or column the folder produces is the Kleene result "
+      "for every run-time value (NULL AND FALSE = FALSE, NULL OR TRUE = TRUE, c AND NULL left alone). Partial: the EXECUTOR's row-level 3VL "
+      "(Arrow boolean kernels) is outside CBMC's reach and NOT decided -- which is where the statement's own example lives.",
       "Oracle = SQL scalar semantics in i128 / two-valued logic. Thorough tier adds exactness of *, /, % on reduced widths. LIKE is under C36.",
       "DESIGN.md §4/C02")
 claim("C11",
